@@ -46,6 +46,10 @@ type rpcSeq struct {
 	hist    map[string][]*version
 	resAt   []int // moments of earlier resolutions
 	lastBad int   // clock of the last moment the RPCs were failing; -1 = never
+	// role / policy keys that a resolution asked for while the RPCs were failing: the code may have
+	// written a negative entry for them (known finding cache:rpc:negative-entry-written-on-rpc-error)
+	outageIDs   map[string]bool
+	extraAbsent bool // views may also treat those keys as absent
 }
 
 func (s *rpcSeq) record(key string, val any) {
@@ -65,7 +69,11 @@ func (s *rpcSeq) candidates(key string, ttl int, strict bool) []any {
 	if len(vs) == 0 {
 		return []any{nil}
 	}
+	_ = vs
 	var out []any
+	if s.extraAbsent && s.outageIDs[key] {
+		out = append(out, nil)
+	}
 	for _, v := range vs {
 		switch {
 		case v.toClock == -1:
@@ -231,6 +239,9 @@ func (s *rpcSeq) rresolve(secret string) {
 	s.run.Case(strings.Join(s.ops, "\n"), strings.HasPrefix(out, "c="))
 	s.run.Tag("rpc:resolve:" + strings.SplitN(out, "=", 2)[0])
 
+	if s.b.down {
+		s.noteOutageIDs(eff)
+	}
 	strict := s.downPol != "async-cache" && !s.b.down
 	if s.lastBad >= 0 {
 		maxT := 0
@@ -271,10 +282,14 @@ func (s *rpcSeq) rresolve(secret string) {
 			"token %q at clock %dh (TTLs token/policy/role %v h+30m, -1 = zero): answer %s is not the answer of a fresh resolver on any view of the token's own objects within their TTL windows (%d admissible answers)",
 			secret, s.clock, s.ttl, out, len(answers)))
 	default:
+		// is the answer explained by negative entries written for objects that were asked for during
+		// an outage? then it is the known mechanism, otherwise something new
 		sig := "cache:rpc:decision-not-from-any-past-state"
-		if s.lastBad >= 0 && !s.b.down {
+		s.extraAbsent = true
+		if again, ok := s.views(secret, names, false); ok && again[out] {
 			sig = "cache:rpc:negative-entry-written-on-rpc-error"
 		}
+		s.extraAbsent = false
 		s.violate(sig, fmt.Sprintf(
 			"token %q at clock %dh: answer %s does not correspond to any value the servers held at an earlier resolution or hold now (%d admissible answers)",
 			secret, s.clock, out, len(answers)))
@@ -462,5 +477,31 @@ func outageWitness(run *hx.Run) {
 		s.advance(2)
 		s.rresolve(secrets[0])
 		run.Tag("rpc:witness:expired-policy-fetched-during-outage")
+	}
+}
+
+// noteOutageIDs: every role and policy any version of the token (and of its roles) links.
+func (s *rpcSeq) noteOutageIDs(eff string) {
+	if s.outageIDs == nil {
+		s.outageIDs = map[string]bool{}
+	}
+	for _, v := range s.hist["t:"+eff] {
+		tok, ok := v.val.(*structs.ACLToken)
+		if !ok || tok == nil {
+			continue
+		}
+		for _, pid := range tok.PolicyIDs() {
+			s.outageIDs["p:"+pid] = true
+		}
+		for _, rid := range tok.RoleIDs() {
+			s.outageIDs["r:"+rid] = true
+			for _, rv := range s.hist["r:"+rid] {
+				if ro, ok := rv.val.(*structs.ACLRole); ok && ro != nil {
+					for _, l := range ro.Policies {
+						s.outageIDs["p:"+l.ID] = true
+					}
+				}
+			}
+		}
 	}
 }
